@@ -12,12 +12,20 @@ from xknx.telegram.apci import APCI
 
 from harness.dsec_common import *  # noqa: F403
 
+from xknx.exceptions import CommunicationError, ConfirmationError
+
+from harness import vloop
+
 PROPERTY = "C17"
 RULE = ("histories of 4..40 events over 1..4 known senders + unknown ones, 2 keyed + 1 unkeyed group address; "
         "start counters from the boundary dictionary (1, 2^47, 2^48-3..2^48-1) so that exhaustion is reached; "
         "frame kinds: genuine/replay/lower/equal/forged-MAC/wrong-key/changed-payload/unknown-sender/unkeyed/"
         "plain/p2p/tool/broadcast/other-service/malformed-inner; non-trivial = history with at least one delivery "
-        "or one send")
+        "or one send; ROUND 2: send-side histories of 2..16 calls of the real CEMIHandler.send_telegram with a "
+        "knxip_interface.send_cemi scripted per call {ok, CommunicationError after recording the frame, "
+        "ConversionError, no confirmation}, keyed/unkeyed/individual destinations, direct outgoing_cemi calls and "
+        "received frames in between, counters near 2^48; observed: the sequence numbers of all frames HANDED to the "
+        "interface, each fed in order to an independent receiving DataSecure")
 TRUSTED = [
     "the abstraction frame -> event (which tests pass, whether the MAC verifies) is computed by the harness from how it built the frame; `verify` is an uninterpreted input of the automaton",
 ]
@@ -89,10 +97,40 @@ def gen_history(rng, n):
     return {"keys": keys, "senders": {str(k): v for k, v in senders.items()}, "sendSeq": send_seq, "events": evs}
 
 
+OWN = 0x1234
+VERDICTS = ["ok", "comm", "conv", "noconf"]
+
+
+def gen_tx_history(rng, n):
+    """Round 2: calls of CEMIHandler.send_telegram with a scripted interface verdict."""
+    h = gen_history(rng, 0)
+    h["kind"] = "tx"
+    h["sendSeq"] = rng.choice([1, 1000, 2**47, 2**48 - 4, 2**48 - 2, 2**48 - 1, rng.randrange(1, 2**48)])
+    failing = rng.choice([0.2, 0.5, 0.9])
+    evs = []
+    for _ in range(n):
+        r = rng.random()
+        if r < 0.1:
+            evs.append({"t": "send", "dst": rng.choice(GAS), "group": 1, "apdu": rng.choice(GOOD_APDUS)})
+        elif r < 0.2 and h["senders"]:
+            src = int(rng.choice(list(h["senders"])))
+            evs.append({"t": "frame", "src": src, "dst": GAS[0], "group": 1, "secure": 1, "forge": rng.choice(["", "", "mac"]),
+                        "alg": ALG_ENC, "service": 0, "tool": 0, "sb": 0, "apdu": "0081",
+                        "seq": min(h["senders"][str(src)] + rng.randrange(0, 3), SEQ_MAX)})
+        else:
+            dst, group = rng.choice([(GAS[0], 1)] * 5 + [(GAS[1], 1), (GAS[2], 1), (0x1105, 0)])
+            evs.append({"t": "tx", "dst": dst, "group": group, "apdu": rng.choice(GOOD_APDUS),
+                        "res": rng.choice(VERDICTS[1:]) if rng.random() < failing else "ok"})
+    h["events"] = evs
+    return h
+
+
 def generate(rng, tier):
     n = 800 if tier == "quick" else 15000
     for i in range(n):
         yield gen_history(rng, rng.choice([4, 8, 12, 20, 40]))
+    for i in range(300 if tier == "quick" else 5000):
+        yield gen_tx_history(rng, rng.choice([2, 3, 5, 8, 16]))
 
 
 def inner_ok(apdu: bytes) -> bool:
@@ -137,58 +175,203 @@ def build_frame(c, e):
     return CEMILData(src_addr=src, dst_addr=dst, tpci=tp, payload=apci.SecureAPDU(scf=scf, secured_data=sd)), ev
 
 
-def run_impl(c):
+class ScriptIface:
+    """knxip_interface stand-in: records every frame handed over, THEN acts out the scripted verdict."""
+
+    def __init__(self, xknx):
+        self.xknx = xknx
+        self.handed = []
+        self.mode = "ok"
+
+    async def send_cemi(self, cemi):
+        self.handed.append(cemi)
+        if self.mode == "comm":
+            raise CommunicationError("no TUNNELLING_ACK received (frame was transmitted twice)")
+        if self.mode == "conv":
+            raise ConversionError("scripted")
+        if self.mode == "ok":
+            self.xknx.cemi_handler._l_data_confirmation_event.set()
+        # "noconf": frame taken, no L_Data.con ever arrives
+
+
+def make_ds(c):
     keys = {GroupAddress(int(g)): bytes.fromhex(k) for g, k in c["keys"].items()}
     ds = DataSecure(group_key_table=keys,
                     individual_address_table={IndividualAddress(int(i)): s for i, s in c["senders"].items()},
                     last_sequence_number_sending=c["sendSeq"])
+    return keys, ds
 
-    def state():
-        t = ",".join(f"{ia.raw}:{s}" for ia, s in sorted(ds._individual_address_table.items(), key=lambda kv: kv[0].raw))
-        return f"{t or '-'}/{ds._sequence_number_sending}"
 
+def state_of(ds):
+    t = ",".join(f"{ia.raw}:{s}" for ia, s in sorted(ds._individual_address_table.items(), key=lambda kv: kv[0].raw))
+    return f"{t or '-'}/{ds._sequence_number_sending}"
+
+
+def do_send(ds, keys, e):
+    """Direct `outgoing_cemi` call -> (abstract event, observation)."""
+    dst = GroupAddress(e["dst"]) if e["group"] else IndividualAddress(e["dst"])
+    tp = tpci.TDataGroup() if e["group"] else tpci.TDataIndividual()
+    data = CEMILData(src_addr=IndividualAddress(OWN), dst_addr=dst, tpci=tp, payload=APCI.from_knx(unhx(e["apdu"])))
+    keyed = int(bool(e["group"] and dst in keys))
+    try:
+        o = ds.outgoing_cemi(data)
+        if isinstance(o.payload, apci.SecureAPDU):
+            obs = f"sent:{int.from_bytes(o.payload.secured_data.sequence_number_bytes, 'big')}"
+        else:
+            obs = "sentplain"
+    except DataSecureError:
+        obs = "senderror"
+    except Exception as x:  # noqa: BLE001
+        obs = f"raised:{exc_class(x)}"
+    return f"s,{e['group']},{keyed}", obs
+
+
+def do_frame(ds, c, e):
+    data, ev = build_frame(c, e)
+    try:
+        o = ds.received_cemi(data)
+        if e["secure"]:
+            obs = f"delivered:{e['src']}:{e['seq']}"
+            if isinstance(o.payload, apci.SecureAPDU) or hx(o.payload.to_knx()) != hx(APCI.from_knx(unhx(e["apdu"])).to_knx()):
+                obs = "delivered-wrong-payload"
+        else:
+            obs = "passed"
+    except DataSecureError:
+        obs = "rejected"
+    except Exception as x:  # noqa: BLE001
+        obs = f"raised:{exc_class(x)}"
+    return ev, obs
+
+
+def run_impl(c):
+    if c.get("kind") == "tx":
+        return run_tx(c)
+    keys, ds = make_ds(c)
     recs, evs = [], []
     for e in c["events"]:
-        if e["t"] == "send":
-            dst = GroupAddress(e["dst"]) if e["group"] else IndividualAddress(e["dst"])
-            tp = tpci.TDataGroup() if e["group"] else tpci.TDataIndividual()
-            data = CEMILData(src_addr=IndividualAddress(0x1234), dst_addr=dst, tpci=tp,
-                             payload=APCI.from_knx(unhx(e["apdu"])))
-            keyed = int(bool(e["group"] and dst in keys))
-            evs.append(f"s,{e['group']},{keyed}")
-            try:
-                o = ds.outgoing_cemi(data)
-                if isinstance(o.payload, apci.SecureAPDU):
-                    obs = f"sent:{int.from_bytes(o.payload.secured_data.sequence_number_bytes, 'big')}"
-                else:
-                    obs = "sentplain"
-            except DataSecureError:
-                obs = "senderror"
-            except Exception as x:  # noqa: BLE001
-                obs = f"raised:{exc_class(x)}"
-        else:
-            data, ev = build_frame(c, e)
-            evs.append(ev)
-            try:
-                o = ds.received_cemi(data)
-                if e["secure"]:
-                    obs = f"delivered:{e['src']}:{e['seq']}"
-                    if isinstance(o.payload, apci.SecureAPDU) or hx(o.payload.to_knx()) != hx(APCI.from_knx(unhx(e["apdu"])).to_knx()):
-                        obs = "delivered-wrong-payload"
-                else:
-                    obs = "passed"
-            except DataSecureError:
-                obs = "rejected"
-            except Exception as x:  # noqa: BLE001
-                obs = f"raised:{exc_class(x)}"
-        recs.append(f"{obs}/{state()}")
+        ev, obs = do_send(ds, keys, e) if e["t"] == "send" else do_frame(ds, c, e)
+        evs.append(ev)
+        recs.append(f"{obs}/{state_of(ds)}")
     out = " ".join(recs)
     line = f"dsec hist {fmt_table({int(i): s for i, s in c['senders'].items()})} {c['sendSeq']} " + " ".join(evs)
     return {"out": out, "line": line, "expect": out}
 
 
+def run_tx(c):
+    """Round 2: the history runs through the real `CEMIHandler.send_telegram` on a virtual-time loop."""
+    async def main(_loop):
+        keys, ds = make_ds(c)
+        x = XKNX()
+        x.current_address = IndividualAddress(OWN)
+        x.cemi_handler.data_secure = ds
+        x.knxip_interface = ScriptIface(x)
+        # an independent receiver that knows us: every secured frame handed over must be acceptable in order
+        rx = DataSecure(group_key_table=dict(keys), individual_address_table={IndividualAddress(OWN): 0},
+                        last_sequence_number_sending=1)
+        recs, evs, rxs = [], [], []
+        for e in c["events"]:
+            if e["t"] != "tx":
+                ev, obs = do_send(ds, keys, e) if e["t"] == "send" else do_frame(ds, c, e)
+                evs.append(ev)
+                recs.append(f"{obs}/{state_of(ds)}")
+                continue
+            dst = GroupAddress(e["dst"]) if e["group"] else IndividualAddress(e["dst"])
+            keyed = int(bool(e["group"] and dst in keys))
+            evs.append(f"t,{e['group']},{keyed},{e['res']}")
+            x.knxip_interface.mode = e["res"]
+            before = len(x.knxip_interface.handed)
+            tg = Telegram(destination_address=dst, payload=APCI.from_knx(unhx(e["apdu"])))
+            try:
+                await x.cemi_handler.send_telegram(tg)
+                verdict = "if:ok"
+            except ConfirmationError:
+                verdict = "if:noconf"
+            except CommunicationError:
+                verdict = "if:comm"
+            except ConversionError:
+                verdict = "if:conv"
+            except DataSecureError:
+                verdict = None
+            except Exception as ex:  # noqa: BLE001
+                verdict = f"raised:{exc_class(ex)}"
+            obs = []
+            for cemi in x.knxip_interface.handed[before:]:
+                p = cemi.data.payload
+                if isinstance(p, apci.SecureAPDU):
+                    obs.append(f"sent:{int.from_bytes(p.secured_data.sequence_number_bytes, 'big')}")
+                    try:
+                        rx.received_cemi(cemi.data)
+                        rxs.append("ok")
+                    except DataSecureError:
+                        rxs.append("rej")
+                else:
+                    obs.append("sentplain")
+            if verdict is None and not obs:
+                obs.append("senderror")
+            elif verdict:
+                obs.append(verdict)
+            recs.append(f"{'+'.join(obs)}/{state_of(ds)}")
+        return recs, evs, rxs
+
+    recs, evs, rxs = vloop.run(main)
+    exp = " ".join(recs)
+    line = f"dsec thist {fmt_table({int(i): s for i, s in c['senders'].items()})} {c['sendSeq']} " + " ".join(evs)
+    return {"out": f"{exp} | rx {','.join(rxs) or '-'}", "line": line, "expect": exp}
+
+
+def oracle_tx(c, out):
+    """Round 2: what was HANDED to the interface, whatever the interface then reported."""
+    recs, rx = out.split(" | rx ")
+    nxt = c["sendSeq"]
+    last = None
+    prev_counter = c["sendSeq"]
+    e_prev = ""
+    counters = []
+    for i, (e, rec) in enumerate(zip(c["events"], recs.split(" "))):
+        obs, _table, sseq = rec.split("/")
+        parts = obs.split("+")
+        pre = nxt
+        for p in parts:
+            if p.startswith("sent:"):
+                q = int(p[5:])
+                if last is not None and q <= last:
+                    return (f"event {i}: secured frame handed to the interface with sequence number {q} after {last} "
+                            f"(previous send ended '{e_prev}'): outgoing numbers not strictly increasing")
+                if q > SEQ_MAX:
+                    return f"event {i}: sequence number {q} exceeds 48 bits"
+                if q != nxt:
+                    return f"event {i}: handed-over sequence number {q}, reference expects {nxt}"
+                last, nxt = q, q + 1
+            elif p.startswith("raised:"):
+                return f"event {i}: send_telegram raised {p}"
+        if e["t"] == "tx":
+            keyed = e["group"] and str(e["dst"]) in c["keys"]
+            if keyed and pre <= SEQ_MAX and not any(p.startswith("sent:") for p in parts):
+                return f"event {i}: telegram to keyed address with number {pre} available ended as {obs}"
+            if keyed and pre > SEQ_MAX and parts != ["senderror"]:
+                return f"event {i}: telegram to keyed address after exhaustion ended as {obs}"
+            if not keyed and "sentplain" not in parts:
+                return f"event {i}: telegram to unkeyed destination: {obs}"
+            if len(parts) > 1 and parts[-1] != f"if:{e['res']}":
+                return f"event {i}: scripted verdict {e['res']} surfaced as {parts[-1]}"
+        counters.append((i, obs, int(sseq), nxt))
+        e_prev = obs
+    if "rej" in rx:
+        return f"an independent receiver rejected handed-over frame #{rx.split(',').index('rej')} (replayed number)"
+    # the internal counter, after what was observable on the interface
+    for i, obs, sseq, want in counters:
+        if sseq < prev_counter:
+            return f"event {i} ({obs}): sending counter went back from {prev_counter} to {sseq}"
+        if sseq != want:
+            return f"event {i} ({obs}): sending counter {sseq}, reference {want}"
+        prev_counter = sseq
+    return None
+
+
 def oracle(c, out):
     """Reference last-valid-counter model on the observations of the real object."""
+    if c.get("kind") == "tx":
+        return oracle_tx(c, out)
     ref = {int(i): s for i, s in c["senders"].items()}
     nxt = c["sendSeq"]
     last_sent = None
@@ -253,7 +436,7 @@ def nontrivial(c, out):
 
 
 def outcome_class(out):
-    ks = sorted({r.split("/")[0].split(":")[0] for r in out.split(" ")})
+    ks = sorted({p.split(":")[0] for r in out.split(" | ")[0].split(" ") for p in r.split("/")[0].split("+")})
     return "+".join(ks)[:60]
 
 
@@ -261,9 +444,21 @@ def finding_key(c, msg):
     return msg.split(":")[0]
 
 
+def _cat(m):
+    import re
+    return re.sub(r"\d+", "", m or "")[:60]
+
+
 def shrink(c, msg):
-    """Drop events from the end / the start while the oracle still complains."""
+    """Drop events from the end / the start while the oracle still makes the same complaint."""
     best = c
+    want = _cat(msg)
+
+    _full = globals()["oracle"]
+
+    def oracle(c2, out):  # same failure class only
+        m = _full(c2, out)
+        return m if _cat(m) == want else None
     for cut in range(len(c["events"]) - 1, 0, -1):
         c2 = dict(best, events=best["events"][:cut])
         try:
